@@ -145,14 +145,23 @@ def schedules(v, refs, quick, clause="Inv_C16_Safe", pairs=None, sources=None):
                                             {"decls": [d1, d2], "over": d3, "k": [k1, k2], "trace": c.trace})
                     finally:
                         w.close()
-    pairs = pairs or ([("A", "A"), ("A", "B"), ("B", "Bp"), ("H", "Hp")] if not quick else [("A", "B"), ("B", "Bp"), ("H", "Hp")])
+    # (a declaration may come with its code-generation options: a class that generates code for ONE direction only and loses
+    # the race to publish must still run its own code)
+    pairs = pairs or ([("A", "A"), ("A", "B"), ("B", "Bp"), ("H", "Hp"), (("B", "packonly"), "Bp"), ("A", ("Bp", "packonly"))] if not quick
+                      else [("A", "B"), ("B", "Bp"), ("H", "Hp"), (("B", "packonly"), "Bp")])
     for d1, d2 in pairs:
+        o1, o2 = "default", "default"
+        if isinstance(d1, tuple):
+            d1, o1 = d1
+        if isinstance(d2, tuple):
+            d2, o2 = d2
+        fine = not quick or (o1, o2) != ("default", "default")      # (every pair of points for the one-direction classes)
         for bytecode in (False, True):
-            for k1 in range(0, 16, 1 if not quick else 2):
-                for k2 in range(0, 16, 1 if not quick else 3):
+            for k1 in range(0, 16, 1 if fine else 2):
+                for k2 in range(0, 16, 1 if fine else 3):
                     w = ch.World(refs, bytecode)
                     try:
-                        a, b = w.child(d1), w.child(d2)
+                        a, b = w.child(d1, o1), w.child(d2, o2)
                         for _ in range(k1):
                             if a.pending is not None:
                                 a.go()
